@@ -513,6 +513,69 @@ def tail_loop_fn(text):
             "    // every scope opened is closed again (on the paths that do not fail)\n    res is Ok ==> final(p).depth@ == old(p).depth@,\n{\n    " + b + "\n}\n")
 
 
+PLAIN_MODEL = """
+// the plain (statement-list) body of a user function
+pub struct StatementNode { pub id: u64 }
+pub struct FunctionCode { pub statements: Vec<StatementNode> }
+pub struct FunctionDef { pub id: u64, pub code: FunctionCode }
+pub struct Interp { pub depth: Ghost<int>, pub log: Ghost<Seq<u64>> }          // open scopes; ids of the statements evaluated so far
+pub struct Scope { pub id: u64 }
+pub uninterp spec fn st_ok(s: u64, before: Seq<u64>) -> bool;                   // statement() succeeds
+pub uninterp spec fn binds_plain(f: u64, args: Seq<Value>) -> bool;
+pub uninterp spec fn output_of(f: u64, log: Seq<u64>) -> Option<Value>;         // collect_function_output
+impl Scope { #[verifier::external_body] pub fn enter(p: &mut Interp) -> (s: Scope) ensures final(p).depth@ == old(p).depth@ + 1, final(p).log == old(p).log, { unimplemented!() } }
+#[verifier::external_body]
+pub fn drop_plain_scope(s: Scope, p: &mut Interp) ensures final(p).depth@ == old(p).depth@ - 1, final(p).log == old(p).log, { unimplemented!() }
+#[verifier::external_body]
+pub fn bind_plain_inputs(f: &FunctionDef, args: &Vec<Value>, p: &mut Interp) -> (r: Result<(), MechError>)
+  ensures final(p).depth == old(p).depth, final(p).log == old(p).log, r is Ok == binds_plain(f.id, args@), { unimplemented!() }
+#[verifier::external_body]
+pub fn statement(s: &StatementNode, env: Option<&u64>, p: &mut Interp) -> (r: Result<Value, MechError>)
+  ensures final(p).depth == old(p).depth, r is Ok == st_ok(s.id, old(p).log@), final(p).log@ == old(p).log@.push(s.id), { unimplemented!() }
+#[verifier::external_body]
+pub fn collect_function_output(p: &mut Interp, f: &FunctionDef) -> (r: Result<Value, MechError>)
+  ensures final(p).depth == old(p).depth, final(p).log == old(p).log, (match r { Ok(v) => output_of(f.id, old(p).log@) == Some(v), Err(_) => output_of(f.id, old(p).log@) is None }), { unimplemented!() }
+pub open spec fn ids_of(ss: Seq<StatementNode>) -> Seq<u64> { ss.map(|i: int, s: StatementNode| s.id) }
+pub open spec fn all_st_ok(ss: Seq<StatementNode>, log0: Seq<u64>, n: int) -> bool { forall|k: int| 0 <= k < n ==> st_ok(#[trigger] ss[k].id, log0 + ids_of(ss.subrange(0, k))) }
+"""
+
+
+def plain_body_fn(text):
+    """(G) `execute_user_function`: the else-branch of `if !fxn_def.code.match_arms.is_empty() {..} else {..}` (plain statement body) as `fn plain_body(fxn_def, input_arg_values, p)`:
+    `FunctionScope::enter(p)` -> `Scope::enter(p)`, `bind_function_inputs` -> `bind_plain_inputs`, `drop(scope)` -> `drop_plain_scope(scope, p)`,
+    `for statement_node in &fxn_def.code.statements` -> index loop"""
+    sig, body = extract_fn(text, "execute_user_function")
+    b0 = re.sub(r"//[^\n]*", "", body).replace("\r", "")
+    mi = find_code(b0, r"if\s+!\s*fxn_def\.code\.match_arms\.is_empty\(\)\s*\{")
+    if not mi:
+        raise AnchorLost("execute_user_function: the match-arm branch not found")
+    e = match_brace(b0, mi.end() - 1)
+    me = re.match(r"\s*else\s*\{", b0[e:])
+    if not me:
+        raise AnchorLost("execute_user_function: the plain-body else branch not found")
+    blk = b0[e + me.end():match_brace(b0, e + me.end() - 1) - 1]
+    b = blk.replace("FunctionScope::enter(p)", "Scope::enter(p)").replace("bind_function_inputs(", "bind_plain_inputs(")
+    b = re.sub(r"\bdrop\(\s*scope\s*\)", "drop_plain_scope(scope, p)", b)
+    b, n = re.subn(r"for\s+(\w+)\s+in\s+&fxn_def\.code\.statements\s*\{",
+                   lambda m: ("for i_ in 0..fxn_def.code.statements.len()\n      invariant p.depth@ == old(p).depth@ + 1, p.log@ == old(p).log@ + ids_of(fxn_def.code.statements@.subrange(0, i_ as int)),\n"
+                              "        all_st_ok(fxn_def.code.statements@, old(p).log@, i_ as int),\n    {\n      let %s = &fxn_def.code.statements[i_];\n"
+                              "      proof { assert(ids_of(fxn_def.code.statements@.subrange(0, i_ + 1)) =~= ids_of(fxn_def.code.statements@.subrange(0, i_ as int)).push(fxn_def.code.statements@[i_ as int].id)); }" % m.group(1)), b)
+    if n != 1 or re.search(r"\b(FunctionScope|bind_function_inputs)\b", b):
+        raise AnchorLost("execute_user_function: the plain body is outside the transcription rules")
+    b = re.sub(r"(let\s+result\s*=\s*collect_function_output)", r"proof { assert(fxn_def.code.statements@.subrange(0, fxn_def.code.statements@.len() as int) =~= fxn_def.code.statements@); }\n    \1", b, count=1)
+    return ("fn plain_body(fxn_def: &FunctionDef, input_arg_values: &Vec<Value>, p: &mut Interp) -> (res: Result<Value, MechError>)\n"
+            "  ensures (match res {\n"
+            "      // a value is returned only when the inputs were bound, EVERY statement succeeded -- each evaluated once, in source order, after the ones before it -- and the\n"
+            "      // output was collected from the state they left; the scope opened for the call is closed again\n"
+            "      Ok(v) => binds_plain(fxn_def.id, input_arg_values@) && all_st_ok(fxn_def.code.statements@, old(p).log@, fxn_def.code.statements@.len() as int)\n"
+            "               && final(p).log@ == old(p).log@ + ids_of(fxn_def.code.statements@) && output_of(fxn_def.id, final(p).log@) == Some(v) && final(p).depth@ == old(p).depth@,\n"
+            "      Err(_) => true }),\n{\n" + b + "\n}\n")
+
+
+def plain_unit(text):
+    return vlib.verus_file([TAIL_MODEL, PLAIN_MODEL, plain_body_fn(text), vlib.verus_canary("canary_plain", "x: u64", [])])
+
+
 def tail_unit(text):
     return vlib.verus_file([TAIL_MODEL, tail_loop_fn(text), vlib.verus_canary("canary_tail", "x: u64", [])])
 
